@@ -202,7 +202,7 @@ pub fn explorer_plan(prop: &str, thorough: bool) -> Option<Plan> {
                 cases: (600, 12000),
                 required: &["builds_with_memory_hint", "forests_checked", "exact_queries", "c14_batch_fits_one_bucket", "c14_items_above_min_batch"],
                 custom_gen: Some(c14::gen_case),
-                rule: "case = first build over N0 in {1,150,199,200,201,260,450,1000(,3000)} items then 0-2 incremental rounds (insert 1/50/201/400, delete 0/10/half), dims {3,16,64,130,256}, split_after {unset,1,20,200,250,300}, available_memory in {0, 1 page, 3 pages, ~half the items, ~the items, random, ample, 2^40, 2^63, usize::MAX-1, usize::MAX, unset}; every build is bounded by the logical poll clock and followed by the C01 walker and exact queries; non-trivial+distinct = distinct forest shapes with splits",
+                rule: "case = first build over N0 in {1,150,199,200,201,260,450,1000(,3000)} items then 0-2 incremental rounds (insert 1/50/201/400, delete 0/10/half); a fifth of the cases build 450/1000 items, delete all but 20-60 and rebuild, then add 400/1000/2500 under a small hint (freed low node ids + overflowing batches); another fifth run every build of 260-1000 items under a hint of 0-2 pages with buckets of 1-3 items or the dimension; dims {3,16,64,130,256,1024}, split_after {unset,1,20,200,250,300}, available_memory in {0, 1 page, 3 pages, ~half the items, ~the items, random, ample, 2^40, 2^63, usize::MAX-1, usize::MAX, unset}; every build is bounded by the logical poll clock and followed by the C01 walker and exact queries; non-trivial+distinct = distinct forest shapes with splits",
             }
         }
         "C15" => {
